@@ -924,7 +924,7 @@ impl Driver for C16 {
         Some((format!("door-never-returns({})", c.kind), format!("a front door did not return: worker ended with {}", c.kind)))
     }
     fn rule(&self) -> String {
-        "random models (G-model strata: mixed, affine, piecewise, logic, derived bounds, tightened discrete; bounded domains; 30% with a declared-but-unused variable) are expressed (A) through the builder with operator overloads, (A2) through enum constructors and the typed overloads (Var op f64 / i32, f64 op Var, Var & Var, bool constants, !Var, -Var, .implies/.iff) with a random call order (objective first/last, with vs split with_all, an overridden decoy objective, default objective), (T0) as source text in a random style with constants in a where-section, (T1) the same text with those constants supplied through the API as Number / Integer / PositiveInteger (both texts also define a where-constant from the first of them), (P) through PipeRunner presets and (R) through RoocSolver; five hand-written models built with the vars!/constraint!/expr! macros (one of them declares a variable through every arm of vars!, scalar and indexed) are compared with their text spellings at every run. Oracles: A vs A2 identical models and linear models; T0 vs T1 identical expression trees and linear models; A vs T0 row-for-row identical linear models when the serialized expression trees are identical, otherwise equal rows after harmless normalisation or equal meaning on the declared variables (certified aux MILP at directed points); pipe LinearModel stage identical to direct compilation; the verdict and the optimal value (1e-6) of seven solve doors agree; handle values == values by name, foreign handles resolve to None, unused variables resolve inside their domain, the point read through the handles is feasible under the harness's exact evaluator and value() is the objective there, eval() of every model expression equals the exact evaluator (1e-9). non-trivial = distinct model whose builder and text linear models were compared".into()
+        "random models (G-model strata: mixed, affine, piecewise, logic, derived bounds, tightened discrete; bounded domains; 30% with a declared-but-unused variable) are expressed (A) through the builder with operator overloads, (A2) through enum constructors and the typed overloads (Var op f64 / i32, f64 op Var, Var & Var, bool constants, !Var, -Var, .implies/.iff) with a random call order (objective first/last, with vs split with_all, an overridden decoy objective, default objective), (T0) as source text in a random style with constants in a where-section, (T1) the same text with those constants supplied through the API as Number / Integer / PositiveInteger (both texts also define a where-constant from the first of them), (P) through PipeRunner presets and (R) through RoocSolver; five hand-written models built with the vars!/constraint!/expr! macros (one of them declares a variable through every arm of vars!, scalar and indexed) are compared with their text spellings at every run. Oracles: A vs A2 identical models and linear models; T0 vs T1 identical expression trees and linear models; A vs T0 row-for-row identical linear models when the serialized expression trees are identical, otherwise equal rows after harmless normalisation or equal meaning on the declared variables (certified aux MILP at directed points); pipe LinearModel stage identical to direct compilation; the verdict and the optimal value (1e-6) of seven solve doors agree; handle values == values by name, foreign handles resolve to None, unused variables resolve inside their domain, the point read through the handles is feasible under the harness's exact evaluator and value() is the objective there, eval() of every model expression equals the exact evaluator (1e-9). non-trivial = distinct model whose builder and text linear models were compared 12% of the models add 1e5 times an integer variable to the objective (near-ties relative to the objective).".into()
     }
     fn thresholds(&self, tier: Tier) -> Thresholds {
         let s = tier.pick(4, 60);
